@@ -46,6 +46,9 @@ pub fn format(
         }
     }
 
+    // The range of a position can begin in front of the (empty) range of an earlier position
+    // that found nothing to tidy; the merging below needs ascending starts.
+    ranges.sort_by_key(|r| r.start);
     open_structure_remove_range.sort_by_key(|r| r.start);
     merge_ranges(&mut ranges, open_structure_remove_range);
     merge_overlapped_ranges(&mut ranges);
